@@ -323,7 +323,10 @@ def _sample2(spec, ctx):
         return
     where['refitted'] = past is not None
     n = spec['n_sample']
-    ok, out = ctx.call(model.sample, n)
+    import copulas.multivariate.vine as vine_mod
+    from vmon import interpose
+    with interpose.record_random(vine_mod) as log:
+        ok, out = ctx.call(model.sample, n)
     if not ok:
         ctx.violation('sample.call', 'C17:sample-' + exc_mech(out), dict(exc_detail(out), **where))
         return
@@ -331,6 +334,7 @@ def _sample2(spec, ctx):
     if not ctx.check(good, 'sample.schema', 'C17:sample-schema', lambda: dict(where, columns=list(out.columns), rows=len(out))):
         return
     e = model.trees[0].edges[0]
+    _rosenblatt2(ctx, model, df, out, log, e, where)
     tau_edge = float(arch.Arch(FAM[e.name.value], e.theta).tau())
     # the sampler clips conditional uniforms at 0.99 (documented in DESIGN.md section 5): allow that mass
     eps = stats.dkw_eps(n) + 0.011
@@ -351,6 +355,56 @@ def _sample2(spec, ctx):
               lambda: dict(where, tau_sample=ts, tau_edge=tau_edge, band=te, edge=[e.name.name, e.theta]))
     ctx.maxstat('|tau_sample - tau_edge| / band', abs(ts - tau_edge) / te, where)
     ctx.nontriv('s2|%s|%r|%d' % (fam, tau, spec['seed']))
+
+
+def _rosenblatt2(ctx, model, df, out, log, e, where):
+    """RNG interposition on a two-column vine: every row is the Rosenblatt transform of the uniforms the sampler
+    drew for it - the starting variable is its marginal's quantile of its own uniform w_s, the other variable the
+    quantile of the pair copula's conditional inverse of its uniform given w_s (the sampler keeps that value
+    inside [EPSILON, 0.99], section 5).  Marginals: kernel estimates fitted afresh here to the training columns;
+    conditional inverse: the family class parameterised like the edge (C08 judges that class)."""
+    from copulas.univariate import GaussianKDE
+    uni_calls = [x for x in log if x['fn'] == 'uniform']
+    int_calls = [x for x in log if x['fn'] == 'randint']
+    n = len(out)
+    if len(uni_calls) != n or len(int_calls) != n or any(np.shape(x['result']) != (2,) for x in uni_calls):
+        ctx.note('vine sampler draws not in the recorded per-row form (reconstruction not judged)')
+        return
+    W = np.array([x['result'] for x in uni_calls], dtype=float)
+    first = np.array([int(x['result']) for x in int_calls])
+    marg = []
+    for c in ('a', 'b'):
+        k = GaussianKDE()
+        k.fit(df[c].to_numpy().copy())
+        marg.append(k)
+    cop = _copula(e.name, e.theta)
+    V = out.to_numpy(dtype=float)
+    idx = np.arange(n)
+    ws = W[idx, first]
+    wt = W[idx, 1 - first]
+    okc, tmp = ctx.call(cop.percent_point, wt, ws)
+    if not okc:
+        ctx.note('reference conditional inverse raised (reconstruction not judged)')
+        return
+    tmp = np.clip(np.asarray(tmp, dtype=float), EPS32, 0.99)
+    bad = 0
+    worst = 0.0
+    for j in (0, 1):
+        rows_s = np.flatnonzero(first == j)
+        rows_t = np.flatnonzero(first != j)
+        sd = float(np.std(df.iloc[:, j].to_numpy()))
+        for rows, probs in ((rows_s, ws[rows_s]), (rows_t, tmp[rows_t])):
+            if not len(rows):
+                continue
+            want = np.asarray(marg[j].percent_point(probs), dtype=float)
+            err = np.abs(V[rows, j] - want) / (1e-7 * sd)
+            err = np.where(np.isnan(err), np.inf, err)
+            worst = max(worst, float(err.max()))
+            bad += int((err > 1).sum())
+    ctx.check(bad == 0, 'sample.rosenblatt', 'C17:sample-row-not-rosenblatt-transform-of-its-uniforms',
+              lambda: dict(where, rows_off=bad, worst_error_in_1e_7_sd=worst))
+    ctx.ok('sample.rosenblatt', n - 1)
+    ctx.maxstat('vine sample reconstruction error / (1e-7 sd)', worst, where)
 
 
 def _sample_schema(spec, ctx):
